@@ -190,6 +190,8 @@ def run(ctx):
                       "loop early except an add_line error; an empty per-directory node is inserted only when the directory has none yet")
     ctx.rule("R03.7", "builders stay where they are: outside finish() nothing takes a directory's GitignoreBuilder (or its whole node) out of the trie, so an "
                       "early `?` return between taking and putting back cannot lose the patterns loaded so far")
+    ctx.rule("R03.8", "one spelling per directory: every path used as a trie key or probed against it goes through simplify_path, which is "
+                      "unconditionally dunce::simplified(path).normalize() (no fast path that lets `/o/./sub` or `/o//sub` through)")
     ctx.rule("R03.5", "per-directory grouping: every GitignoreBuilder::add_line gets Some(applies_in) where applies_in is "
                       "get_applies_in_path(origin, file), and the compiled set is stored under that same directory's key")
 
@@ -360,6 +362,40 @@ def run(ctx):
     # ---- R03.7 nothing takes a builder / node out of the trie
     try:
         builders_stay(ctx, "R03.7")
+    except Skip:
+        pass
+
+    # ---- R03.3b the caller that assembles the list (GlobsetFilterer::new) keeps the listed order too
+    try:
+        GFN = "watchexec_filterer_globset::GlobsetFilterer"
+        gn = ctx.anchor_one("R03.3", "GlobsetFilterer::new coroutine", [c for c in facts.children(ctx.anchor_fn("R03.3", GFN + "::new")) if c.kind == "coroutine"])
+        reord = []
+        for g in [gn] + facts.descendants(gn):
+            for _, t in g.calls():
+                full = (t.callee.full or "") + " " + (t.callee.def_ or "")
+                for u in UNORDERED + ("::sort", "sort_by", "dedup", "::reverse", "BTreeSet", "BTreeMap"):
+                    if u in full and not g.macro(t.mac):
+                        reord.append(strip_generics(t.callee.def_))
+        igargs = [[pathx.desc(a) for a in x["a"]] for c, x in thir.calls_in(thir.root(gn)) if strip_generics(c).endswith("IgnoreFilter::new")]
+        ctx.require(not reord and igargs == [["origin", "Iterator::collect(IntoIterator::into_iter(ignore_files))"]], "R03.3", "caller-keeps-order",
+                    "GlobsetFilterer::new hands the ignore files to IgnoreFilter::new in the order it was given", gn.loc(gn.line), detail="%s %s" % (sorted(set(reord))[:4], igargs),
+                    fail="GlobsetFilterer::new reorders the ignore files before loading them (%s): same-directory precedence no longer follows the listed order" % sorted(set(reord))[:4])
+    except Skip:
+        pass
+
+    # ---- R03.8 simplify_path
+    try:
+        sp = ctx.anchor_fn("R03.8", "ignore_files::simplify_path")
+        vals = {(q.out, q.val) for q in pathx.Enum().paths(thir.root(sp))}
+        ctx.require(vals == {("val", "NormalizePath::normalize(dunce::simplified(path))")}, "R03.8", "simplify-path", "simplify_path(p) = dunce::simplified(p).normalize() on every path",
+                    sp.loc(sp.line), detail=str(sorted(vals, key=str))[:300],
+                    fail="simplify_path no longer normalises unconditionally (%s): differently spelled paths of one directory get different trie keys, so the nearest ignore file is missed" % str(sorted(vals, key=str))[:200])
+        users = {}
+        for fname in ("get_applies_in_path", "IgnoreFilter::match_path"):
+            fn_ = ctx.anchor_fn("R03.8", "ignore_files::filter::" + fname)
+            users[fname] = sum(1 for g in [fn_] + facts.descendants(fn_) for c, _ in thir.calls_in(thir.root(g)) if strip_generics(c).endswith("ignore_files::simplify_path"))
+        ctx.require(all(v >= 1 for v in users.values()), "R03.8", "simplify-path-used", "both the key side (get_applies_in_path) and the probe side (match_path) simplify their path", detail=str(users),
+                    fail="a trie key or a probed path is no longer passed through simplify_path (%s)" % users)
     except Skip:
         pass
 
